@@ -17,7 +17,7 @@ ALL_FEATURES = ['conic', 'asphere', 'poly', 'cheby', 'tilt', 'decenter',
                 'mirror', 'glass', 'abbe', 'absorb', 'finite_obj', 'vignette',
                 'coat_simple', 'coat_fresnel', 'polarized', 'aperture',
                 'bsdf', 'multi_wl', 'units', 'fno', 'na', 'obj_height',
-                'int_coeffs', 'glass_str', 'planes', 'stop_any']
+                'int_coeffs', 'glass_str', 'planes', 'stop_any', 'telecentric']
 
 
 def pick_features(ch, allowed=None, p=0.3):
@@ -65,6 +65,10 @@ def gen_lens(ch, feats, nsurf=None, harsh=False, max_surf=12):
                              (12, 0.5)], tag='nsurf')
     nsurf = min(nsurf, max_surf)
     ops = []
+    if 'telecentric' in feats:
+        # object-space telecentricity needs a finite object, an objectNA
+        # aperture and object-height fields
+        feats = set(feats) | {'finite_obj', 'na', 'obj_height'}
     finite_obj = 'finite_obj' in feats
     epd = ch.rounded(ch.uniform(1.0, 8.0) if not harsh
                      else ch.uniform(8.0, 25.0), 4)
@@ -233,6 +237,8 @@ def gen_lens(ch, feats, nsurf=None, harsh=False, max_surf=12):
                   'phase_x': ch.rounded(ch.uniform(0, 3), 3),
                   'phase_y': ch.rounded(ch.uniform(0, 3), 3)}
         ops.append({'op': 'set_polarization', 'state': st})
+    if 'telecentric' in feats:
+        ops.append({'op': 'set_telecentric', 'value': True})
     meta = {'nsurf': nsurf, 'finite_obj': finite_obj, 'epd': epd,
             'features': sorted(feats)}
     return ops, meta
